@@ -173,6 +173,9 @@ for c in CRATES3:
                   "analyzer decodes endpoints e => raw_filter::apply admits under allow-list{e} and rejects under deny-list{e}", timeout_s=900, mem_gb=10))
     _c15.append(H(f"c15::{c}::c15_agree_v4_96", "thorough", "every frame of 60..=96 bytes, IPv4 view (IP options up to 40 bytes behind Ethernet)", "same", timeout_s=3000, mem_gb=24))
     _c15.append(H(f"c15::{c}::c15_agree_v6_84", t, "every frame of 40..=84 bytes, IPv6 view", "same", timeout_s=1500, mem_gb=12))
+_c15.append(H("c15::unified::c15_agree_v4_64", "quick", "unified analyzer (its own packet_parser copy + pnet views built in process.rs) vs the TCP crate's raw filter it applies: every frame of 0..=64 bytes, IPv4 view",
+              "same lemma", timeout_s=900, mem_gb=10))
+_c15.append(H("c15::unified::c15_agree_v6_84", "thorough", "same, every frame of 40..=84 bytes, IPv6 view", "same lemma", timeout_s=1500, mem_gb=12))
 PROPERTIES["C15"] = {
     "harnesses": _c15,
     "explanation": "Decoder-agreement lemma by bounded model checking: over every frame up to the bound, the endpoints the analyzer's own "
@@ -180,10 +183,10 @@ PROPERTIES["C15"] = {
                    "raw_filter::apply decides on, observed through exact allow/deny lists built with the real filter types. Since the filter is "
                    "stateless and is applied first on every per-packet path, this is what commuting reduces to per frame.",
     "functions": ["{tcp,http,tls}::raw_filter::apply (extract_quick_info, try_ethernet, try_raw_ip, try_null_datalink, extract_ipv4_info, extract_ipv6_info)",
-                  "{tcp,http,tls}::packet_parser::parse_packet", "pnet Ipv4Packet/Ipv6Packet/TcpPacket::{new,payload,get_*}", "FilterConfig::should_process"],
+                  "{tcp,http,tls}::packet_parser::parse_packet", "huginn_net::packet_parser::parse_packet (unified)", "pnet Ipv4Packet/Ipv6Packet/TcpPacket::{new,payload,get_*}", "FilterConfig::should_process"],
     "bounds": "frames <= 64 bytes quick / <= 96 bytes thorough (IPv4), <= 84 bytes (IPv6); unwind 20",
     "outside": "longer frames (IPv6 behind Ethernet with payload, IPv4 options behind NULL framing above the bound); that the four call sites apply the filter "
-               "first and keep no filter-dependent state is read, not solver-checked; the unified analyzer's own packet_parser copy; worker threads",
+               "first and keep no filter-dependent state is read, not solver-checked; worker threads",
     "assumptions": ["E1 tracing stub"],
 }
 
@@ -194,6 +197,10 @@ _c18 = [
     H("c18::tcp::c18_tcp_raw_v6", "thorough", "two raw IPv6 frames of 60 bytes", "hash_source_ip equal", timeout_s=2700),
     H("c18::tcp::c18_tcp_eth_v6", "thorough", "two Ethernet+IPv6 frames of 74 bytes", "hash_source_ip equal", timeout_s=2700),
 ]
+_c18 += [
+    H("c18::tcp::c18_tcp_null_v4", "quick", "two NULL/loopback-framed IPv4 frames of 64 bytes (1e 00 xx xx + IPv4), all other bytes symbolic, same decoded source address", "hash_source_ip equal", timeout_s=900),
+    H("c18::tcp::c18_tcp_null_v6", "thorough", "two NULL/loopback-framed IPv6 frames of 64 bytes", "hash_source_ip equal", timeout_s=2700),
+]
 for c in ["tls", "http"]:
     ident = "directed 4-tuple" if c == "tls" else "4-tuple irrespective of direction"
     _c18 += [
@@ -203,6 +210,7 @@ for c in ["tls", "http"]:
         H(f"c18::{c}::c18_eth_v4_n4", "quick", f"two Ethernet+IPv4 frames of 54 bytes, same {ident}, 4 workers", "same worker, valid index", timeout_s=900),
         H(f"c18::{c}::c18_eth_v4_n7", "thorough", f"same, 7 workers", "same worker, valid index", timeout_s=2700),
         H(f"c18::{c}::c18_raw_v6_n4", "thorough", f"two raw IPv6 frames of 60 bytes, same {ident}, 4 workers", "same worker, valid index", timeout_s=2700, mem_gb=24),
+        H(f"c18::{c}::c18_null_v4_n4", "thorough", f"two NULL/loopback-framed IPv4 frames of 64 bytes, same {ident}, 4 workers", "same worker, valid index", timeout_s=2700, mem_gb=24),
         H(f"c18::{c}::c18_eth_v6_n16", "thorough", f"two Ethernet+IPv6 frames of 74 bytes, same {ident}, 16 workers", "same worker, valid index", timeout_s=2700, mem_gb=24),
     ]
 PROPERTIES["C18"] = {
@@ -214,7 +222,7 @@ PROPERTIES["C18"] = {
                   "tls::packet_hash::hash_flow", "{tcp,http,tls}::packet_parser::parse_packet", "std DefaultHasher (SipHash-1-3)"],
     "bounds": "frames of 54/60/74 bytes per skeleton (raw/Ethernet x IPv4/IPv6), worker counts 3, 4, 7, 16; valid index: frames <= 64 bytes, every usize count",
     "outside": "the accounting clause (queued/dropped counters, exactly-once analysis under concurrent dispatchers): needs WorkerPool threads and crossbeam channels, "
-               "which Kani does not model; NULL/loopback framing; longer frames; truncated frames in the two-run harnesses",
+               "which Kani does not model; longer frames; truncated frames in the two-run harnesses",
     "assumptions": ["E1 tracing stub", "identity defined through the analyzer's decoder; a frame that is both a raw IP packet and an Ethernet frame is excluded from the raw skeletons"],
 }
 
@@ -315,6 +323,7 @@ _c03 = [
     H("c03::c03_ttl_all", "quick", "all 256 TTLs", "guess_distance / calculate_ttl == p0f rule (next of 32/64/128/255, <= 30 hops)"),
     H("c03::c03_role_predicates", "quick", "all 256 flag bytes", "from_client, from_server, is_valid"),
     H("c03::c03_ipv4_olen", "quick", "all IHL values", "olen == option bytes"),
+    H("c03::c03_ipv6_olen", "quick", "every 48-byte IPv6 packet", "olen 0 / 8 / (ext len + 1) * 8"),
     H("c03::c03_flag_shape", "quick", "IPv4 SYN skeleton, symbolic TCP flag byte, seq/ack/urgent zero-or-not, no options",
       "refused iff invalid flags; client signature iff SYN without ACK; server signature iff ACK when SYN; quirk list == oracle in order; layout, pclass, ittl", timeout_s=900),
     H("c03::c03_flag_non_handshake", "quick", "same skeleton, every flag byte without SYN (known finding D4)", "neither signature"),
